@@ -651,7 +651,7 @@ def _not_memoisable(fn: ast.FunctionDef, mutable_globals: Set[str]) -> Optional[
     return None
 
 
-def partial_on_empty(fn: ast.AST) -> List[Tuple[int, str]]:
+def partial_on_empty(fn: ast.AST, with_choice: bool = False) -> List[Tuple[int, str]]:
     """max(xs) / min(xs) / next(it) without a default, where nothing on the way establishes that xs is non-empty: they raise on an empty
     argument. (line, text)"""
     parents: Dict[int, ast.AST] = {}
@@ -660,8 +660,9 @@ def partial_on_empty(fn: ast.AST) -> List[Tuple[int, str]]:
             parents[id(c)] = n
     out = []
     for n in ast.walk(fn):
-        if not (isinstance(n, ast.Call) and isinstance(n.func, ast.Name) and n.func.id in ("max", "min", "next") and len(n.args) == 1
-                and not any(k.arg == "default" for k in n.keywords) and not isinstance(n.args[0], ast.Starred)):
+        if not (isinstance(n, ast.Call) and len(n.args) == 1 and not isinstance(n.args[0], ast.Starred)
+                and ((isinstance(n.func, ast.Name) and n.func.id in ("max", "min", "next") and not any(k.arg == "default" for k in n.keywords))
+                     or (with_choice and isinstance(n.func, ast.Attribute) and n.func.attr == "choice" and not n.keywords))):
             continue
         arg = n.args[0]
         name = arg.id if isinstance(arg, ast.Name) else None
